@@ -151,7 +151,94 @@ def assign_value(rhs, vars=()):
 GLOBCH = '*?['
 
 
-def rule_words(seg, position, vars=()):
+def _glob_word(w, existing):
+    """what glob(3) makes of one word (see rule_words)"""
+    has = False
+    for ch in w:
+        if ch in GLOBCH:
+            has = True
+    if not has:
+        return w
+    if existing is None:
+        return None
+    lit = ''
+    i = 0
+    n = len(w)
+    while i < n:
+        c = w[i]
+        if c == chr(92) and i + 1 < n:
+            lit += w[i + 1]        # glob: a backslash quotes the next character
+            i += 2
+            continue
+        if c in GLOBCH:
+            return None            # a live wildcard: the result depends on the directory
+        lit += c
+        i += 1
+    for e in existing:
+        if e == lit:
+            return lit
+    return w
+
+
+def include_words(text, vars=(), existing=None):
+    """file names read by `include <text>` / `-include <text>`: variables expanded, words split at
+    blanks (backslash-blank joins), nothing else is un-escaped (a backslash before ':' or '%'
+    stays in the name), wildcards as in rule_words, a leading '~' expands."""
+    e = expand(text, vars)
+    if e is None:
+        return None
+    words = []
+    cur = None
+    i = 0
+    n = len(e)
+    while i < n:
+        c = e[i]
+        if c == '#':
+            return None
+        if c == chr(92):
+            j = i
+            while j < n and e[j] == chr(92):
+                j += 1
+            k = j - i
+            if j < n and e[j] == '\t':
+                return None
+            if j < n and (e[j] == ' ' or e[j] == '#'):
+                cur = (cur or '') + chr(92) * (k // 2)
+                if k % 2 == 1:
+                    cur += e[j]
+                    i = j + 1
+                else:
+                    i = j
+                    if e[j] == '#':
+                        return None
+                continue
+            if j >= n:
+                return None
+            cur = (cur or '') + chr(92) * k
+            i = j
+            continue
+        if c == ' ' or c == '\t':
+            if cur is not None:
+                words.append(cur)
+                cur = None
+            i += 1
+            continue
+        cur = (cur or '') + c
+        i += 1
+    if cur is not None:
+        words.append(cur)
+    out = []
+    for w in words:
+        if w[0] == '~' or w.strip(' ') == '':
+            return None
+        g = _glob_word(w, existing)
+        if g is None:
+            return None
+        out.append(g)
+    return out
+
+
+def rule_words(seg, position, vars=(), existing=None):
     """File names GNU Make 4.3 derives from `seg`, the text of the target list (position
     'target', up to but not including the ':' that ends it) or of a prerequisite list (position
     'prereq') of an explicit rule.  Returns the list of names, or None whenever Make would do
@@ -163,7 +250,11 @@ def rule_words(seg, position, vars=()):
     /usr/bin/make): variables are expanded first ($$ -> $); a run of k backslashes before a stop
     character (blank, ':', '#', and '%' in targets, '|' in prerequisites) is halved and, if k is
     odd, makes that character literal; backslashes before anything else stay; blanks separate
-    words."""
+    words.  A word containing a wildcard character is handed to glob(3): with `existing` (a list
+    of file names present in the directory) given, a word whose wildcard characters are all
+    backslash-escaped resolves to the existing file of that literal name, or stays verbatim
+    (backslashes included) when there is none; an unescaped wildcard is state-dependent -> None.
+    With `existing` None any wildcard character makes the model decline."""
     e = expand(seg, vars)
     if e is None:
         return None
@@ -208,6 +299,7 @@ def rule_words(seg, position, vars=()):
         i += 1
     if cur is not None:
         words.append(cur)
+    out = []
     for w in words:
         if w[0] == '~':
             return None
@@ -216,9 +308,12 @@ def rule_words(seg, position, vars=()):
         if position == 'target' and w[-1] == ' ':
             return None            # an escaped blank at the end of a target word swallows the
                                    # following separator (names ending in a blank: unrepresentable)
-        for ch in w:
-            if ch in GLOBCH:
-                return None
+        g = _glob_word(w, existing)
+        if g is None:
+            return None
+        out.append(g)
+    words = out
+    for w in words:
         k = w.find('(')
         if k > 0 and w[-1] == ')' and len(w) - 1 != k + 1:
             return None            # archive(member) syntax (ar_name in GNU Make)
